@@ -117,6 +117,22 @@ def sumFrom (z : α) (l : List α) : α := l.foldl (fun acc x => acc + x) z
 def capFloorValue (m : Mdl α) (isCap : Bool) (strike notional : α) (ps : List (Period α)) : α :=
   sumFrom (K.lit 0 0) (capletTable K m isCap strike notional ps)
 
+/-- the forward of the first (known-payoff) period: `if self.last_fixing is None: fwd_rate = libor_curve.fwd_rate(start, end, dc)
+else: fwd_rate = self.last_fixing` — the test is `is None`, not truthiness: a fixing of exactly 0.0 IS a fixing -/
+def firstFwd (lastFixing : Option α) (curveFwd : α) : α :=
+  match lastFixing with
+  | none => curveFwd
+  | some x => x
+
+/-- the period list with the contract's `last_fixing` applied to the first period (every `Period.fwd` is the curve forward) -/
+def withFixing (lastFixing : Option α) : List (Period α) → List (Period α)
+  | [] => []
+  | p :: ps => { p with fwd := firstFwd lastFixing p.fwd } :: ps
+
+/-- `IborCapFloor.value` with the constructor argument `last_fixing` explicit -/
+def capFloorValueFix (m : Mdl α) (isCap : Bool) (strike notional : α) (lastFixing : Option α) (ps : List (Period α)) : α :=
+  capFloorValue K m isCap strike notional (withFixing lastFixing ps)
+
 /-! ### swaptions -/
 
 /-- one zero-coupon leg of the Jamshidian decomposition: coupon, its time, the strike `p_fast(t_exp, t_cpn, r*, …)`,
